@@ -64,6 +64,21 @@ def liftE (x : Except Exc G) : Except LErr G :=
   | .ok g => .ok g
   | .error e => .error (.forest e)
 
+/-- `coll.update(X._from_protobuf(c, ir) for c in children)`: `SetWrapper.update`
+consumes the generator lazily, so each child is decoded and added to the owning
+collection before the next one is decoded (`ByteInterval.blocks.update` is the
+exception: it materialises all blocks first, see `decodeInterval`) -/
+def decodeAttach {α : Type} (dec : G → Nat → α → Except LErr (G × Nat)) (ir p : Nat) (slot : Slot) :
+    G → List α → Except LErr G
+  | g, [] => .ok g
+  | g, x :: xs =>
+    match dec g ir x with
+    | .error e => .error e
+    | .ok (g1, v) =>
+      match liftE (setAdd g1 p slot v) with
+      | .error e => .error e
+      | .ok g2 => decodeAttach dec ir p slot g2 xs
+
 /-- `Node._from_protobuf`: `(state, node, fresh?)` -/
 def fromProto (g : G) (ir : Nat) (k : Kind) (u : Nat) : Except LErr (G × Nat × Bool) :=
   match g.cache ir u with
@@ -117,12 +132,9 @@ def decodeSection (g : G) (ir : Nat) (s : SkSection) : Except LErr (G × Nat) :=
   | .ok (g1, v, fresh) =>
     if !fresh then .ok (g1, v) else
     let g2 := cacheSet g1 ir s.uuid v
-    match decodeIntervals ir g2 s.intervals with
+    match decodeAttach decodeInterval ir v .bis g2 s.intervals with
     | .error e => .error e
-    | .ok (g3, xs) =>
-      match liftE (foldE (fun g x => setAdd g v .bis x) xs g3) with
-      | .error e => .error e
-      | .ok g4 => .ok (g4, v)
+    | .ok g4 => .ok (g4, v)
 
 def decodeSections (ir : Nat) : G → List SkSection → Except LErr (G × List Nat)
   | g, [] => .ok (g, [])
@@ -200,32 +212,23 @@ def decodeModule (g : G) (ir : Nat) (m : SkModule) : Except LErr (G × Nat) :=
   | .ok (g1, v, fresh) =>
     if !fresh then .ok (g1, v) else
     let g2 := cacheSet g1 ir m.uuid v
-    match decodeProxies ir g2 m.proxies with
+    match decodeAttach decodeProxy ir v .proxies g2 m.proxies with
     | .error e => .error e
-    | .ok (g3, ps) =>
-      match liftE (foldE (fun g x => setAdd g v .proxies x) ps g3) with
+    | .ok g4 =>
+      match decodeAttach decodeSection ir v .secs g4 m.sections with
       | .error e => .error e
-      | .ok g4 =>
-        match decodeSections ir g4 m.sections with
+      | .ok g6 =>
+        match (match m.entry with
+               | none => (.ok () : Except LErr Unit)
+               | some u => refKind g6 ir (fun k => k == Kind.code) u) with
         | .error e => .error e
-        | .ok (g5, ss) =>
-          match liftE (foldE (fun g x => setAdd g v .secs x) ss g5) with
+        | .ok _ =>
+          match decodeAttach decodeSymbol ir v .syms g6 m.symbols with
           | .error e => .error e
-          | .ok g6 =>
-            match (match m.entry with
-                   | none => (.ok () : Except LErr Unit)
-                   | some u => refKind g6 ir (fun k => k == Kind.code) u) with
+          | .ok g8 =>
+            match checkAll g8 ir (fun k => k == Kind.symbol) m.exprSyms with
             | .error e => .error e
-            | .ok _ =>
-              match decodeSymbols ir g6 m.symbols with
-              | .error e => .error e
-              | .ok (g7, ys) =>
-                match liftE (foldE (fun g x => setAdd g v .syms x) ys g7) with
-                | .error e => .error e
-                | .ok g8 =>
-                  match checkAll g8 ir (fun k => k == Kind.symbol) m.exprSyms with
-                  | .error e => .error e
-                  | .ok _ => .ok (g8, v)
+            | .ok _ => .ok (g8, v)
 
 /-- `ir.modules.extend(Module._from_protobuf(m, ir) for m in ...)`: decode one,
 append it, decode the next -/
